@@ -6,6 +6,10 @@
 (*  ev = "haze"  kind ("flat" | "lee"), lev, b, t  (positions round(10^6   *)
 (*        log10 P), bounds as [set, x]), S, ms: for a few wavenumbers the  *)
 (*        per-layer sigma_xsec / declared magnitude scaled by S (m < 0:    *)
+(*        NaN ...), cen2 (twice the positions of the layer pressures), pu  *)
+(*        (uncertainty of the positions in units: 1 rounded, 0 exact),     *)
+(*        route: how the array was obtained (prepare(), at the yield of    *)
+(*        prepare_each(), after model_contrib() / model_full_contrib())    *)
 (*        NaN / Inf / negative), raised: prepare() raised an exception,    *)
 (*        model: BOOLEAN; if TRUE also rowsame[l] / rowle[l]: the          *)
 (*        transmittance row of tangent layer l is equal to / not above the *)
@@ -58,6 +62,10 @@ HazeFails(e) ==
         empty == Inverted(e.b, e.t) /\ \A w \in 1..nw : \A k \in 1..n : e.ms[w][k] = 0
         outs == {k \in 1..n : WhollyOutside(e.lev, k, lo, hi)}
         ins  == {k \in 1..n : WhollyInside(e.lev, k, lo, hi)}
+        part == (1..n) \ (ins \cup outs)
+        \* the contribution's documented partial-layer rule (Clouds!FlatRuleOk / LeeRuleOk)
+        rule(k, m) == IF e.kind = "flat" THEN FlatRuleOk(e.lev, k, e.b, e.t, m, e.S, e.pu)
+                      ELSE (Len(e.cen2) = n /\ LeeRuleOk(e.lev, e.cen2, k, e.b, e.t, m, e.S))
     IN  IF ~wf THEN {"haze_wellformed"}
         ELSE IF neg THEN {"haze_finite_nonnegative"}
         ELSE IF empty THEN {}
@@ -65,6 +73,7 @@ HazeFails(e) ==
              \cup (IF \A w \in 1..nw : \A k \in ins : Near(e.ms[w][k], e.S) THEN {} ELSE {"declared_magnitude_inside"})
              \cup (IF \A w \in 1..nw : \A k \in (1..n) \ (ins \cup outs) : e.ms[w][k] <= e.S + 1
                    THEN {} ELSE {"partial_within_interval"})
+             \cup (IF \A w \in 1..nw : \A k \in part : rule(k, e.ms[w][k]) THEN {} ELSE {"partial_layer_rule"})
              \cup (IF (~e.b.set /\ ~e.t.set) => \A w \in 1..nw : \A k \in 1..n : Near(e.ms[w][k], e.S)
                    THEN {} ELSE {"unset_means_whole_atmosphere"})
              \cup (IF \A w \in 1..nw : \A k \in 1..n : Near(e.ms[w][k], e.ms[1][k]) THEN {} ELSE {"declared_wavelength_law"})
